@@ -537,6 +537,10 @@ func seqExplore(c *core.Ctx, r *core.Result, prop string) {
 		if w != nil {
 			w.Close()
 		}
+		if x.tried >= 5 && x.applied == 0 {
+			// not one block of this era could be applied: that is no verdict on this property, and it must not pass silently
+			panic(fmt.Sprintf("harness: sequence explorer, era %s: none of %d blocks could be applied", pl.era.Name, x.tried))
+		}
 	}
 }
 
@@ -547,6 +551,7 @@ type seqX struct {
 	alpha []seqEvent
 	prop  string
 	warm  bool
+	tried, applied int
 }
 
 // seqNode is a clone of the system between two blocks.
@@ -691,7 +696,8 @@ func (x *seqX) step(n *seqNode, ei int, report bool) (*seqNode, bool) {
 	}
 	prevWinners := append([]string{}, b.Prev...)
 	b.Add(spec)
-	d, err := drive.Open(nn.dir+"/db", fake.NewNode(b.Chain), nil, false)
+	// a clone of the running node: no start-up code, the averaging cache carried over
+	d, err := drive.Continue(nn.dir+"/db", fake.NewNode(b.Chain), nil, false)
 	if err != nil {
 		panic("harness: open: " + err.Error())
 	}
@@ -699,6 +705,10 @@ func (x *seqX) step(n *seqNode, ei int, report bool) (*seqNode, bool) {
 	out := d.SyncTo(h, drive.SyncOpts{})
 	nn.cache = d.CacheSnapshot()
 	d.Close()
+	x.tried++
+	if out.Reached {
+		x.applied++
+	}
 	if report {
 		r.Eval()
 	}
